@@ -562,3 +562,78 @@ func FuzzCmdJSON(f *testing.F) {
 		}
 	})
 }
+
+// TestTagCoherence: a static sweep over EVERY field of FilterType and CmdType (also those of
+// functions no feature type registers): the function named by the eebus tag must be the one the
+// SPINE XSD naming convention of the JSON name implies, the tag type must match the field kind
+// (selectors / elements), and the named function must exist as a CmdType member.
+func TestTagCoherence(t *testing.T) {
+	cmdT := reflect.TypeOf(model.CmdType{})
+	cmdFns := map[string]reflect.StructField{}
+	for i := 0; i < cmdT.NumField(); i++ {
+		sf := cmdT.Field(i)
+		name := strings.Split(sf.Tag.Get("json"), ",")[0]
+		if name == "function" || name == "filter" || sf.Type.Kind() != reflect.Ptr || sf.Type.Elem().Kind() != reflect.Struct {
+			continue // option group and the two extension members, not data choices
+		}
+		cmdFns[name] = sf
+		tags := model.EEBusTags(sf)
+		world.Record(world.Hash("cmdtag", name), true, "tags/cmd")
+		if fct, ok := tags[model.EEBusTagFunction]; !ok || fct != name {
+			world.Guard(func() {
+				world.Fail(t, "C18/tag/cmd-function/"+name, "CmdType.%s (json %q) is tagged fct:%q", sf.Name, name, fct)
+			})
+		}
+	}
+	fltT := reflect.TypeOf(model.FilterType{})
+	n := 0
+	for i := 0; i < fltT.NumField(); i++ {
+		sf := fltT.Field(i)
+		name := strings.Split(sf.Tag.Get("json"), ",")[0]
+		if name == "filterId" || name == "cmdControl" {
+			continue
+		}
+		n++
+		tags := model.EEBusTags(sf)
+		var wantTyp string
+		var cands []string
+		switch {
+		case strings.HasSuffix(name, "Selectors"):
+			wantTyp = string(model.EEBusTagTypeTypeSelector)
+			cands = []string{strings.TrimSuffix(name, "Selectors")}
+		case strings.HasSuffix(name, "Elements"):
+			wantTyp = string(model.EEbusTagTypeTypeElements)
+			base := strings.TrimSuffix(name, "Elements")
+			// <item>Elements belongs to <item minus Data>ListData if that function exists, else to <item>
+			if strings.HasSuffix(base, "Data") {
+				cands = append(cands, strings.TrimSuffix(base, "Data")+"ListData")
+			}
+			cands = append(cands, base)
+		default:
+			world.Guard(func() { world.Fail(t, "C18/tag/unknown-filter-field/"+name, "FilterType.%s is neither selectors nor elements", sf.Name) })
+			continue
+		}
+		want := ""
+		for _, c := range cands {
+			if _, ok := cmdFns[c]; ok {
+				want = c
+				break
+			}
+		}
+		world.Record(world.Hash("filtertag", name), true, "tags/filter")
+		world.Guard(func() {
+			if want == "" {
+				// no CmdType member by convention: nothing to compare with (none on the current tree)
+				world.Label("tags/no-function-by-convention")
+				return
+			}
+			if typ := tags[model.EEBusTagType]; typ != wantTyp {
+				world.Fail(t, "C18/tag/filter-type/"+name, "FilterType.%s is tagged typ:%q, its JSON name implies %q", sf.Name, typ, wantTyp)
+			}
+			if fct := tags[model.EEBusTagFunction]; fct != want {
+				world.Fail(t, "C18/tag/filter-function/"+name, "FilterType.%s is tagged fct:%q, its JSON name implies %q", sf.Name, fct, want)
+			}
+		})
+	}
+	world.Sample(map[string]any{"kind": "tag-coherence", "filter_fields": n, "cmd_fields": len(cmdFns)})
+}
